@@ -43,6 +43,10 @@ func c14Config(rc *RunCtx) {
 	}
 	pol := polFor(rc.Cfg["version"])
 	rc.Parties = []PartyCfg{{KeyIdx: 0, Pol: pol, Peer: 1, Tag: 0x1111 + uint32(r.Intn(1000))}, {KeyIdx: 1, Pol: pol, Peer: 0, Tag: 0x22222 + uint32(r.Intn(1000))}}
+	if r.Chance(1, 3) {
+		// tags near the top of the range: "-" followed by seven digits then has the width of a genuine tag
+		rc.Parties[0].Tag = 0xf0001111 + uint32(r.Intn(1000))
+	}
 }
 
 func c14Run(rc *RunCtx) *Violation {
@@ -337,8 +341,8 @@ func c14Receiver(rc *RunCtx) *Violation {
 				f = raw(h8(ta), h8(tb), fmt.Sprint(k-65536), fmt.Sprint(n-65536), piece)
 			case 15: // instance tags with more than 8 hex digits / a sign, equal to the genuine ones modulo 2^32
 				f = raw("1"+h8(ta), h8(tb), fmt.Sprintf("%05d", k), fmt.Sprintf("%05d", n), piece)
-				if st.B%2 == 1 {
-					f = raw(fmt.Sprintf("-%x", uint64(1<<32)-uint64(ta)), h8(tb), fmt.Sprintf("%05d", k), fmt.Sprintf("%05d", n), piece)
+				if st.B%2 == 1 || ta > 0xf0000000 {
+					f = raw(fmt.Sprintf("-%07x", uint64(1<<32)-uint64(ta)), h8(tb), fmt.Sprintf("%05d", k), fmt.Sprintf("%05d", n), piece)
 				}
 			case 16, 17: // a whole encoded message of (or for) another instance arrives between the pieces
 				var src []byte
